@@ -7,7 +7,7 @@ Three clauses, all judged on the implementation under the instrumented system:
      exactly the result of the failure-free run;
  (c) a file at least as long as the format's header whose signature bytes are wrong is refused
      with MSPACK_ERR_SIGNATURE.
-Theorems: Proofs/Props/C10.lean (signature refusal on the CAB/SZDD/KWAJ header models, for every
+Theorems: Proofs/Props/C10.lean, C10Chm.lean (signature refusal on the CAB/SZDD/KWAJ/CHM header models, for every
 file content)."""
 import os, re
 from lib import common as C
@@ -16,7 +16,8 @@ from checks import faults as F, scenarios as S
 
 PROP = "C10"
 LEVEL = "proof"
-THEOREMS = {"Proofs.Props.C10": ["MsPack.C10.cab_signature_refused", "MsPack.C10.szdd_signature_refused", "MsPack.C10.kwaj_signature_refused"]}
+THEOREMS = {"Proofs.Props.C10": ["MsPack.C10.cab_signature_refused", "MsPack.C10.szdd_signature_refused", "MsPack.C10.kwaj_signature_refused"],
+            "Proofs.Props.C10Chm": ["MsPack.C10.chm_signature_refused", "MsPack.C10.chm_guid_refused", "MsPack.C10.chm_open_signature_refused", "MsPack.C10.chm_open_guid_refused"]}
 ASSUMPTIONS = ["(a) and (b) are fault enumeration on the implementation (sampled in the quick tier, every call index in the thorough tier); (c) is proved on the header models and checked on the implementation for all five formats",
                "a fault 'affects' the call during which it fires; later calls are compared up to the first difference"]
 RULE = ("fault runs as in C09 (scenarios over generated archives of all five formats x single faults of alloc/open/read/write/seek); signature cases: valid archives and random files of at least header length with 1-4 "
